@@ -166,15 +166,37 @@ def iteration_obligations(c, k, p):
 def obligations(c):
     out = []
     alltx = []
+    h, L = c.h, c.L
+    ended = []  # (condition, id term, step, how): the order's life on the level ended, by the API's own account
     for k, p in enumerate(c.params):
         if p['op'] == 'I':
             out += iteration_obligations(c, k, p)
             continue
+        rec = p['rec']
+        if p['op'] in 'CPBX' and rec.get('ret') is not None:
+            ret = rec['ret']
+            opt = ret.payloads[0][0]
+            took = S.And(p['live'], S.Eq(ret.tag, S.bv(0, 64)), S.Eq(opt.tag, S.bv(1, 64)))
+            if p['op'] != 'C':
+                took = S.And(took, S.Not(S.Eq(p['price'], h.P)))
+            ended.append((took, p['id'], k, 'handed back by an update'))
+        elif p['op'] in 'AR':
+            oid = OrderView(L, p['order']).id
+            ended = [(S.And(cnd, S.Not(veq(oid, tid))), tid, kk, how) for cnd, tid, kk, how in ended]
         if p['op'] != 'M' or p['rec']['ret'] is None:
             continue
         o, valid, T = match_obligations(c, k, p)
         out += o
         alltx += [(S.And(p['live'], v), t['transaction_id']) for v, t in zip(valid, T)]
+        # lifetime: an order whose life ended (acknowledged removal, or reported as filled) does not trade again
+        for cnd, tid, kk, how in ended:
+            bad = [S.And(v, veq(t['maker_order_id'], tid)) for v, t in zip(valid, T)]
+            out.append({'name': 'step%d:M an order %s at step %d does not trade afterwards (lifetime bound)' % (k, how, kk),
+                        'kind': 'obligation', 'goal': S.And(p['live'], cnd, S.Or(bad))})
+        mr = dict(zip(L.structs['MatchResult'], rec['ret']))
+        fl = mr['filled_order_ids']
+        for i, f in enumerate(fl.cells):
+            ended.append((S.And(p['live'], S.Ult(S.bv(i, 64), fl.length)), f, k, 'reported as filled'))
     # transaction ids never repeat within the history (ids are V5(namespace, counter): injectivity assumed)
     if len(alltx) > 1:
         conj = []
